@@ -8,6 +8,7 @@ calls update.  Colour tables are parameters (`Pal`): the driver and the theorems
 tables regenerated from the source (`Tcell.Gen.wPalette`, `Tcell.Gen.wColorValues`).
 -/
 import Tcell.Model.CellOps
+import Tcell.Model.LockRegion
 namespace Tcell.WScreen
 open Tcell
 
@@ -151,19 +152,11 @@ def fill (s : WS) (r : Rune) (st : Style) : WS := { s with cells := s.cells.fill
 /-- `baseScreen.Fill` on the tree of variant `fz` (CellBuffer.Fill repaired by fixes/C09-fill-zero-width.patch when `fz`) -/
 def fillV (fz : Bool) (rw : Rune → Int) (s : WS) (r : Rune) (st : Style) : WS := { s with cells := s.cells.fillV fz rw r st }
 
-/-- the loops of screen.go:424 `LockRegion`, as the list of cells visited in order -/
-def regionCells (x y w h : Int) : List (Int × Int) :=
-  (List.range h.toNat).flatMap fun (j : Nat) => (List.range w.toNat).map fun (i : Nat) => (x + (i : Int), y + (j : Int))
-
-/-- one row of `LockRegion` (screen.go:424): lock / unlock `w` cells from `(x, y)`, then — since the fix "a wide character is not
-drawn over a locked cell to its right" — after an unlocked, non-empty row a wide rune just left of it is marked dirty -/
-def lockRegionRow (b : Buf) (x y w : Int) (lock : Bool) : Buf :=
-  let b' := (List.range w.toNat).foldl
-      (fun (b : Buf) (i : Nat) => if lock then b.lockCell (x + (i : Int)) y else b.unlockCell (x + (i : Int)) y) b
-  if lock = false ∧ w > 0 ∧ (b'.getContent (x - 1) y).2.2.2 > 1 then b'.setDirty (x - 1) y true else b'
-
+/-- screen.go:424 `baseScreen.LockRegion` — the code every backend shares (`Tcell.lockRowsG`, Model/LockRegion.lean): the
+loops over LockCell / UnlockCell and, after a row whose first cell was really unlocked, the re-dirtying of a wide rune
+just left of the region -/
 def lockRegion (s : WS) (x y w h : Int) (lock : Bool) : WS :=
-  { s with cells := (List.range h.toNat).foldl (fun (b : Buf) (j : Nat) => lockRegionRow b x (y + (j : Int)) w lock) s.cells }
+  { s with cells := lockRowsG s.cells x y w lock h.toNat }
 
 /-! ### the page: the abstract grid the recorded calls update (what tcell.js keeps in `content.data`) -/
 
@@ -184,8 +177,9 @@ def Page.applyAll (pg : Page) (cs : List JsCall) : Page := cs.foldl Page.apply p
 inductive WOp where
   | setContent (x y : Int) (m : Rune) (c : List Rune) (st : Style)
   | fill (r : Rune) (st : Style)
-  | lockCell (x y : Int)         -- LockRegion is a loop of these
+  | lockCell (x y : Int)         -- CellBuffer.LockCell / UnlockCell (through GetCells)
   | unlockCell (x y : Int)
+  | lockRegion (x y w h : Int) (lock : Bool)   -- screen.go:424
   | present                      -- Show
   | sync
   | setSize (w h : Int)
@@ -197,16 +191,19 @@ def WOp.ok (rw : Rune → Int) : WOp → Prop
   | .setContent _ _ m _ _ => m ≤ 32 ∨ rw m ≠ 0
   | _ => True
 
-def stepW (p : Pal) (rw : Rune → Int) (sp : WS × Page) : WOp → WS × Page
+/-- one step of a history on the tree of Fill variant `fz` (`Tcell.currentFillBlanksZeroWidth` for the tree as it is; the
+theorems of Props/C19Page are generic in it) -/
+def stepW (p : Pal) (fz : Bool) (rw : Rune → Int) (sp : WS × Page) : WOp → WS × Page
   | .setContent x y m c st => (setContent rw sp.1 x y m c st, sp.2)
-  | .fill r st => (fill sp.1 r st, sp.2)
+  | .fill r st => (fillV fz rw sp.1 r st, sp.2)
   | .lockCell x y => ({ sp.1 with cells := sp.1.cells.lockCell x y }, sp.2)
   | .unlockCell x y => ({ sp.1 with cells := sp.1.cells.unlockCell x y }, sp.2)
+  | .lockRegion x y w h lock => (lockRegion sp.1 x y w h lock, sp.2)
   | .present => ((WScreen.show p sp.1).1, sp.2.applyAll (WScreen.show p sp.1).2)
   | .sync => ((sync p sp.1).1, sp.2.applyAll (sync p sp.1).2)
   | .setSize w h => ((setSize sp.1 w h).1, sp.2.applyAll (setSize sp.1 w h).2)
 
-def runW (p : Pal) (rw : Rune → Int) (sp : WS × Page) (ops : List WOp) : WS × Page := ops.foldl (stepW p rw) sp
+def runW (p : Pal) (fz : Bool) (rw : Rune → Int) (sp : WS × Page) (ops : List WOp) : WS × Page := ops.foldl (stepW p fz rw) sp
 
 /-! ### callbacks: onKeyEvent / onMouseEvent / onPaste / onFocus (wscreen.go:319-411) -/
 
